@@ -398,6 +398,24 @@ class CParser:
 # ---- lane-symbolic evaluation
 
 
+# outcomes (of comparing a with b) on which each _mm*_cmp predicate is true; the signalling /
+# quiet distinction does not change the result
+_O = frozenset
+CMP_PRED = {}
+for _names, _outs in (
+    (("_CMP_EQ_OQ", "_CMP_EQ_OS"), {"eq"}), (("_CMP_EQ_UQ", "_CMP_EQ_US"), {"eq", "un"}),
+    (("_CMP_LT_OS", "_CMP_LT_OQ"), {"lt"}), (("_CMP_LE_OS", "_CMP_LE_OQ"), {"lt", "eq"}),
+    (("_CMP_GT_OS", "_CMP_GT_OQ"), {"gt"}), (("_CMP_GE_OS", "_CMP_GE_OQ"), {"gt", "eq"}),
+    (("_CMP_NEQ_UQ", "_CMP_NEQ_US"), {"lt", "gt", "un"}), (("_CMP_NEQ_OQ", "_CMP_NEQ_OS"), {"lt", "gt"}),
+    (("_CMP_NLT_US", "_CMP_NLT_UQ"), {"eq", "gt", "un"}), (("_CMP_NLE_US", "_CMP_NLE_UQ"), {"gt", "un"}),
+    (("_CMP_NGT_US", "_CMP_NGT_UQ"), {"lt", "eq", "un"}), (("_CMP_NGE_US", "_CMP_NGE_UQ"), {"lt", "un"}),
+    (("_CMP_ORD_Q", "_CMP_ORD_S"), {"lt", "eq", "gt"}), (("_CMP_UNORD_Q", "_CMP_UNORD_S"), {"un"}),
+    (("_CMP_TRUE_UQ", "_CMP_TRUE_US"), {"lt", "eq", "gt", "un"}), (("_CMP_FALSE_OQ", "_CMP_FALSE_OS"), set()),
+):
+    for _n in _names:
+        CMP_PRED[_n] = _O(_outs)
+
+
 class Unanalysed(Exception):
     pass
 
@@ -653,13 +671,14 @@ class CEval:
             if msk[0] == "ivec":
                 return ("vec", [y[i] if (msk[1][i] & 0x80000000) else x[i] for i in range(len(x))])
             if msk[0] == "cmpvec":
-                return ("vec", [mk("select_lt", msk[1][i][0], msk[1][i][1], y[i], x[i]) for i in range(len(x))])
+                # one result per outcome of the floating-point comparison: less / equal / greater / unordered (NaN)
+                return ("vec", [mk("case4", msk[1][i][0], msk[1][i][1], *[(y[i] if o in msk[1][i][2] else x[i]) for o in ("lt", "eq", "gt", "un")]) for i in range(len(x))])
             raise Unanalysed("blend mask")
         if op in ("cmp_ps", "cmp_pd"):
             x, y = self._vec(a[0]), self._vec(a[1])
-            if a[2] != ("pred", "_CMP_LT_OQ"):
+            if a[2][0] != "pred" or a[2][1] not in CMP_PRED:
                 raise Unanalysed("comparison predicate")
-            return ("cmpvec", [(x[i], y[i]) for i in range(len(x))])
+            return ("cmpvec", [(x[i], y[i], CMP_PRED[a[2][1]]) for i in range(len(x))])
         if op == "extractf128_ps":
             v = self._vec(a[0])
             h = self._int(a[1])
@@ -771,7 +790,8 @@ class BodyEval:
             if fn == "relu":
                 return mk("max", xs[0], ("const", 0.0))
             if fn == "select":
-                return mk("select_lt", xs[0], xs[1], xs[2], xs[3])
+                # select(x, v, y, z) = y if x < v else z  (z also when x or v is NaN)
+                return mk("case4", xs[0], xs[1], xs[2], xs[3], xs[3], xs[3])
             raise Unanalysed(f"extern {fn}")
         raise Unanalysed("value expression")
 
